@@ -436,7 +436,7 @@ def main(chk: core.Check) -> int:
     c02_gen.regenerate(chk, c02_gen.C04_FUNCS)   # T-tell: Study._pop_waiting_trial_id as statement IR (Generated/TellMethods.lean)
     c04_enqueue_gen.regenerate(chk)   # T-enqueue: enqueue_trial / _should_skip_enqueue / add_trial(s) / queue part of ask / Trial.__init__ (Generated/EnqueueMethods.lean)
     if not getattr(chk, "no_prove", False):
-        chk.prove(["OptunaVerif.Props.C04", c02_gen.MODULE_C04, c04_enqueue_gen.MODULE])
+        chk.prove(["OptunaVerif.Props.C04", c02_gen.MODULE_C04, c04_enqueue_gen.MODULE, "OptunaVerif.Props.C04Run"])
         c02_gen.explain_proof_failure(chk, c02_gen.MODULE_C04)
         c04_enqueue_gen.explain_proof_failure(chk)
     quick = chk.tier == "quick"
